@@ -594,6 +594,22 @@ impl Store {
         let topic_key = idx_topic_key_from_frame(frame)?;
 
         let mut batch = self.keyspace.batch();
+
+        // An id that is already stored under another topic or context (an import replacing
+        // it) moves: its old index entries go in the same batch, or the old topic's head
+        // and the old context's stream would keep pointing at the replaced frame
+        if let Some(old) = self.get(&frame.id) {
+            if old.topic != frame.topic || old.context_id != frame.context_id {
+                if let Ok(old_topic_key) = idx_topic_key_from_frame(&old) {
+                    batch.remove(&self.idx_topic, old_topic_key);
+                }
+                batch.remove(&self.idx_context, idx_context_key_from_frame(&old));
+                if old.topic == "xs.context" && old.id != ZERO_CONTEXT {
+                    self.contexts.write().unwrap().remove(&old.id);
+                }
+            }
+        }
+
         batch.insert(&self.frame_partition, frame.id.as_bytes(), encoded);
         batch.insert(&self.idx_topic, topic_key, b"");
         batch.insert(&self.idx_context, idx_context_key_from_frame(frame), b"");
